@@ -54,6 +54,7 @@ def shards(tier):
         out.append({'n': 3, 'first': i})
     out.append({'kind': 'e2e'})
     out.append({'kind': 'filter'})
+    out.append({'kind': 'big'})
     return out
 
 
@@ -64,6 +65,11 @@ def run_shard(shard, ctx, tier):
     if shard.get('kind') == 'filter':
         for margins in itertools.product(range(len(MARGINS)), repeat=3):
             guarded_check(mod, {'filter': list(margins)}, ctx)
+        return
+    if shard.get('kind') == 'big':
+        # pages with more lines than one digit can number (ids l1 .. l12: l1 is a prefix of l10, l11, l12)
+        for step in (1, 5, 7):
+            guarded_check(mod, {'lines': [list(VARIANTS[(3 + k * step) % len(VARIANTS)]) for k in range(12)]}, ctx)
         return
     if shard.get('kind') == 'e2e':
         texts = [''.join(p) for n in range(0, 4) for p in itertools.product('ab ', repeat=n)]      # incl. a line that decodes to ''
@@ -180,7 +186,7 @@ def check_pages(case, ctx):
     blobs['legacy-no-window'] = pickle.dumps(leg2)
     universe = ids + ['zz']
     for how, blob in blobs.items():
-        for r in range(len(universe) + 1):
+        for r in (range(len(universe) + 1) if n <= 4 else (0, 1, len(universe) - 1, len(universe))):
             for S in itertools.combinations(universe, r):
                 S = list(S)
                 tgt = make_page(None, ids=S, fill=False)
@@ -233,6 +239,8 @@ def check_pages(case, ctx):
                         return
     if n >= 2:
         ctx.nontrivial(tuple(variants), 'multi-line-pages')
+    if n > 9:
+        ctx.tag('more-than-nine-lines')
     ctx.outcome((n, tuple(v[0] for v in variants)))
     # ---- missing components
     for li in range(n):
@@ -420,5 +428,5 @@ def describe(tier):
         'bounds': BOUNDS[tier],
         'alphabets': {'matrices': MATS, 'charsets': CHARSETS, 'windows': WINDOWS},
         'assumptions': ['no stored entry is exactly 0.0 (precondition of the format)', 'line ids never equal the table keys'],
-        'min_nontrivial': 100, 'required_tags': ['multi-line-pages', 'missing-component-cases', 'end-to-end-pages', 'filter-splits-the-page', 'logits-loaded-into-a-used-layout'],
+        'min_nontrivial': 100, 'required_tags': ['multi-line-pages', 'missing-component-cases', 'end-to-end-pages', 'filter-splits-the-page', 'logits-loaded-into-a-used-layout', 'more-than-nine-lines'],
     }
